@@ -4,6 +4,12 @@ import struct
 FEAT_ID0 = 1001          # feature f (1-based) has id FEAT_ID0 + f - 1
 NAME_ID0 = 256           # and label name id NAME_ID0 + f - 1
 LANG_TAGS = [0x656E0000, 0x76696500]   # 'en', 'vie' (zero padded) for language k = 1, 2
+# language tags of one to four characters, chosen per font
+TAG_SETS = [[0x656E0000, 0x76696500], [0x6B000000, 0x6B730000], [0x71000000, 0x7778797A], [0x61626364, 0x7A000000]]
+
+
+def lang_tags(defs):
+    return TAG_SETS[(3 * len(defs) + sum(len(d) for d in defs)) % len(TAG_SETS)]
 # feature ids are 32-bit names: every third font uses ids from all over the range (tag-like and beyond 2^31)
 WIDE_IDS = [0x00000005, 0x6B646F74, 0x7FFFFFF0, 0x80000001, 0xC0DE0000, 0xFFFF0001, 0xFFFFFFFE]
 
@@ -83,6 +89,7 @@ def scalars_from_utf32(u32):
 def from_case(c):
     defs = c["defs"]
     ids = feature_ids(defs)
+    tags = lang_tags(defs)
     langs = []
     for k, row in enumerate(c["langs"]):
         ov = []
@@ -91,13 +98,17 @@ def from_case(c):
             dflt = d[0] if d else 0
             if v != dflt:
                 ov.append((ids[f], v))
-        langs.append((LANG_TAGS[k], ov))
+        langs.append((tags[k], ov))
+    # every other font also has a Sill entry under the tag 0 with every feature at its highest value: tag 0 (and the tag of
+    # four spaces, which zero-pads to it) asks for the font's defaults, never for a table entry
+    if sum(len(d) for d in defs) & 1:
+        langs.append((0, [(ids[f], max(d)) for f, d in enumerate(defs) if d and max(d) != d[0]]))
     # the order of the Sill entries is a choice of the writer, not part of the abstract map: half of the fonts list the
     # languages in descending tag order (the reader does not require a sorted table)
     if (len(defs) + sum(len(d) for d in defs)) & 1:
         langs.reverse()
     names = {NAME_ID0 + f: lab["u32"] for f, lab in enumerate(c["labels"])}
-    return {"ids": ids, "feat_hex": feat_table(defs, ids=ids).hex(), "sill_hex": sill_table(langs).hex(), "name_hex": name_table(names).hex()}
+    return {"ids": ids, "langtags": tags, "feat_hex": feat_table(defs, ids=ids).hex(), "sill_hex": sill_table(langs).hex(), "name_hex": name_table(names).hex()}
 
 
 def name_table_dual(ids):
